@@ -106,6 +106,8 @@ type HostSpec struct {
 	Chain          []int  `json:"chain,omitempty"`           // blob GET (and HEAD) redirected along this sequence of hosts (1-4 hops, repetition allowed; may contain the registry itself); overrides RedirectTo
 	ChainHead      bool   `json:"chain_head,omitempty"`      // HEAD requests are redirected along the chain too
 	Upload         int    `json:"upload"`                    // upload sessions are handed to this host (-1 none)
+	WriteRedir     int    `json:"write_redir,omitempty"`     // 1-based host index every state-changing request (upload POST, PUT, DELETE) is redirected to (0 = none): a registry that passes pushes on to a regional / storage endpoint
+	WriteRedirSt   int    `json:"write_redir_st,omitempty"`  // 307 308 (method and body kept) | 302 303 (turned into a GET)
 	LocStyle       int    `json:"loc_style,omitempty"`       // regmodel LocStyle when Upload < 0 (0..3)
 	LocScheme      string `json:"loc_scheme,omitempty"`      // "" | http | https: upload POST answers an absolute Location on this host with that scheme
 	NoMountGrant   bool   `json:"no_mount_grant,omitempty"`  // cross-repository mount (from=) is declined: 202 + upload Location
